@@ -407,6 +407,7 @@ func (f *FnEnc) execInstr(ins ssa.Instruction) bool {
 		return false
 
 	case *ssa.Call:
+		f.checkAts(ins, calleeKey(&v.Call))
 		res := f.call(&v.Call, v, v.Pos())
 		if res != nil {
 			f.vals[v] = res
@@ -430,6 +431,7 @@ func (f *FnEnc) execInstr(ins ssa.Instruction) bool {
 		return false
 
 	case *ssa.Send:
+		f.checkAts(ins, "")
 		f.e.abstracted[fnDisplayName(f.fn)+": channel send ignored"] = true
 		return false
 
